@@ -3124,6 +3124,10 @@ impl Scenario for Alpide {
             let ext = "json";
             let mut parts = s(CHECK_MODES[4]);
             parts.extend(s(&["-S", "@STATS@", "-D", ext]));
+            // the second variant is muted in half of the cases: same verdicts, read from the statistics file
+            if variant == 1 && rng.chance(1, 2) {
+                parts.push("-m".into());
+            }
             let im = pick_input_mode(&mut rng);
             let mut spec = specgen::spec(im, &parts, st.bytes());
             if rng.chance(3, 4) {
